@@ -758,17 +758,7 @@ impl<'a> Tr<'a> {
             Expr::Block(b) => self.stmts(&b.block.stmts, k),
             Expr::Match(m) => {
                 let scrut = self.expr(&m.expr)?;
-                let mut out = format!("(match {} with", scrut);
-                for arm in &m.arms {
-                    if arm.guard.is_some() {
-                        return Err("match guards unsupported".into());
-                    }
-                    let pat = self.match_pat(&arm.pat)?;
-                    let body = self.expr_k(&arm.body, k)?;
-                    write!(out, "\n| {} => {}", pat, body).unwrap();
-                }
-                out.push(')');
-                Ok(out)
+                self.match_arms(&scrut, &m.arms, k)
             }
             _ => {
                 if has_return_expr(e) {
@@ -778,6 +768,28 @@ impl<'a> Tr<'a> {
                 }
             }
         }
+    }
+
+    /// `match` arms in order; an arm with a guard `pat if g => body` becomes `| pat => if g then body else REST | _ => REST`, where
+    /// REST is the match on the same (pure) scrutinee over the remaining arms
+    fn match_arms(&self, scrut: &str, arms: &[Arm], k: K) -> R<String> {
+        let mut out = format!("(match {} with", scrut);
+        for (i, arm) in arms.iter().enumerate() {
+            let pat = self.match_pat(&arm.pat)?;
+            let body = self.expr_k(&arm.body, k)?;
+            if let Some((_, g)) = &arm.guard {
+                if i + 1 >= arms.len() {
+                    return Err("guard on the last match arm unsupported".into());
+                }
+                let rest = self.match_arms(scrut, &arms[i + 1..], k)?;
+                let g = self.expr(g)?;
+                write!(out, "\n| {} => (if {} then\n{}\nelse\n{})\n| _ => {})", pat, g, body, rest, rest).unwrap();
+                return Ok(out);
+            }
+            write!(out, "\n| {} => {}", pat, body).unwrap();
+        }
+        out.push(')');
+        Ok(out)
     }
 
     fn match_pat(&self, p: &Pat) -> R<String> {
